@@ -77,6 +77,49 @@ class ScriptErr(Exception):
     pass
 
 
+class RoundHang(BaseException):
+    """a call made by the executor did not return within ROUND_ALARM_S (a handler spinning or blocking)"""
+
+
+ROUND_ALARM_S = 6.0
+
+
+class _RoundGuard:
+    """SIGALRM around one _run_once: a handler that never returns is interrupted and recorded
+    (`world.hung`).  The engine's own per-case alarm (same timer) is saved and restored."""
+
+    def __init__(self, world):
+        self.world = world
+        self.armed = False
+
+    def _fire(self, signum, frame):
+        self.world.hung = True
+        raise RoundHang()
+
+    def arm(self):
+        import signal
+        import threading
+        import time as _time
+        if threading.current_thread() is not threading.main_thread():
+            return
+        self.t0 = _time.monotonic()
+        self.old_handler = signal.signal(signal.SIGALRM, self._fire)
+        self.old_timer = signal.setitimer(signal.ITIMER_REAL, ROUND_ALARM_S)
+        self.armed = True
+
+    def disarm(self):
+        import signal
+        import time as _time
+        if not self.armed:
+            return
+        self.armed = False
+        signal.setitimer(signal.ITIMER_REAL, 0)
+        signal.signal(signal.SIGALRM, self.old_handler)
+        delay, interval = self.old_timer
+        if delay > 0:
+            signal.setitimer(signal.ITIMER_REAL, max(0.01, delay - (_time.monotonic() - self.t0)), interval)
+
+
 class World:
     def __init__(self, args=(), work_klass=None, pin=True, **opts):
         import copy
@@ -101,6 +144,7 @@ class World:
         self.opened = {}         # work id -> descriptors its tasks opened
         self.dead = None
         self.slowest = 0.0       # longest wall-clock time of one _run_once
+        self.hung = False        # a _run_once had to be interrupted
         self.pins = []
         stale = open_fds_from(BASE) if pin else []
         for fd in stale:         # left over by an earlier case that died half-way
@@ -229,14 +273,24 @@ class World:
         self.delivered = []
         import time as _time
         t0 = _time.monotonic()
+        guard = _RoundGuard(self)
         try:
+            guard.arm()
             self.loop.run_until_complete(self.ex._run_once())
+        except RoundHang as e:
+            self.dead = e
+            return e
         except Exception as e:
             self.dead = e
             return e
         finally:
+            guard.disarm()
             self.rounds += 1
             self.slowest = max(self.slowest, _time.monotonic() - t0)
+        if self.hung:
+            # the alarm went off inside a task and the executor treated it as that task's failure
+            self.dead = RoundHang()
+            return self.dead
         return None
 
     def reap(self):
@@ -461,7 +515,9 @@ class FaultySocket:
             if self.released:
                 return
             raise BlockingIOError(errno.EAGAIN, 'again')
-        raise e
+        # a fresh exception object per call: a stored instance would keep its traceback, and through the
+        # frames this socket, alive in a reference cycle (the scenarios run with the cycle collector off)
+        raise _fault(e) if isinstance(e, str) else e
 
     def recv(self, *a):
         self._maybe('recv')
@@ -569,6 +625,10 @@ class RealWorld(World):
         return near, far
 
     def _connect(self, addr, source_address=None):
+        if addr[1] == REFUSED_PORT:
+            # the REAL new_socket_connection against a port nobody listens on (refused / unreachable)
+            self.connects.append((addr, 'real'))
+            return self._orig_connect(addr, source_address=source_address)
         out = self.plan.pop(0) if self.plan else 'ok'
         self.connects.append((addr, out))
         if out == 'refused':
@@ -947,6 +1007,7 @@ def gen_sel(rng, nops=30):
 # ---------------------------------------------------------------------------
 
 RECVBUF = 8192
+REFUSED_PORT = 1        # nothing listens on tcpmux here: real connects to it are refused
 REAL_ARGS = ('--enable-web-server', '--enable-reverse-proxy',
              '--server-recvbuf-size', str(RECVBUF), '--client-recvbuf-size', str(RECVBUF))
 _RP = None
@@ -959,7 +1020,10 @@ def _rp_plugin():
 
         class VerifReverseRoutes(ReverseProxyBasePlugin):
             def routes(self):
-                return [(r'/r%d$' % i, [b'http://rev%d.example:%d/x' % (i, 9000 + i)]) for i in range(8)]
+                return [(r'/r%d$' % i, [b'http://rev%d.example:%d/x' % (i, 9000 + i)]) for i in range(8)] + [
+                    (r'/rc4$', [b'http://127.0.0.1:%d/x' % REFUSED_PORT]),
+                    (r'/rc6$', [b'http://[::1]:%d/x' % REFUSED_PORT]),
+                    (r'/rchost$', [b'http://localhost:%d/x' % REFUSED_PORT])]
 
         _RP = VerifReverseRoutes
     return _RP
@@ -1043,8 +1107,17 @@ def real_plugins():
     return [_rp_plugin(), WebServerPlugin, _hooks_plugin()]
 
 
-def real_world(tcp=False):
-    return RealWorld(args=REAL_ARGS, tcp=tcp, plugins=real_plugins())
+def real_world(tcp=False, order=None):
+    """order='rp-last': the reverse proxy comes after the passive web plugin in the web plugin list"""
+    w = RealWorld(args=REAL_ARGS, tcp=tcp, plugins=real_plugins())
+    if order == 'rp-last':
+        import copy
+        flags = copy.copy(w.flags)
+        flags.plugins = dict(flags.plugins)
+        flags.plugins[b'HttpWebServerBasePlugin'] = list(reversed(flags.plugins[b'HttpWebServerBasePlugin']))
+        w.flags = flags
+        w.ex.flags = flags
+    return w
 
 
 RESP = b'HTTP/1.1 200 OK\r\nContent-Length: 5\r\n\r\nhello'
@@ -1111,6 +1184,30 @@ def good_script(role, i):
         if mode in ('boom-chunk', 'boom-close', 'boom-log', 'none-after'):
             steps.append(['us', RESP.hex()])
         return steps + [['cc']]
+    if role.startswith('rc:'):
+        # the real new_socket_connection towards a port nobody listens on: IPv4 / IPv6 literal, host name
+        host = {'4': b'127.0.0.1', '6': b'[::1]', 'host': b'localhost'}[role.split('-')[1]]
+        kind = role[3:].split('-')[0]
+        if kind == 'fwd':
+            return [['cs', b'GET http://%s:%d/ HTTP/1.1\r\nHost: %s:%d\r\n\r\n'.replace(b'%s', host).replace(b'%d', b'%d' % REFUSED_PORT).hex()], ['cc']]
+        if kind == 'tun':
+            return [['cs', b'CONNECT %s:%d HTTP/1.1\r\nHost: %s:%d\r\n\r\n'.replace(b'%s', host).replace(b'%d', b'%d' % REFUSED_PORT).hex()], ['cc']]
+        if kind == 'rev':
+            return [['cs', (b'GET /rc%s HTTP/1.1\r\nHost: x\r\n\r\n' % role.split('-')[1].encode()).hex()], ['cc']]
+        raise ValueError(role)
+    if role.startswith('upg:'):
+        # upgrade offers through the forward proxy: on the first request or on a follow-up request of the
+        # kept-alive connection, websocket or h2c (what `curl --http2` sends), followed by more client bytes
+        when, what = role[4:].split('-')
+        up = {'ws': b'Connection: Upgrade\r\nUpgrade: websocket\r\nSec-WebSocket-Key: dGhlIHNhbXBsZSBub25jZQ==\r\nSec-WebSocket-Version: 13\r\n',
+              'h2c': b'Connection: Upgrade, HTTP2-Settings\r\nUpgrade: h2c\r\nHTTP2-Settings: AAMAAABkAAQAAP__\r\n'}[what]
+        line = b'GET http://up%d.example:%d/u HTTP/1.1\r\nHost: up%d.example:%d\r\n' % (i, 8000 + i, i, 8000 + i)
+        plain = line + b'\r\n'
+        offer = line + up + b'\r\n'
+        more = [['cs', b'\x81\x85\x01\x02\x03\x04hello-frame'.hex()], ['pump'], ['cs', plain.hex()], ['pump']]
+        if when == 'first':
+            return [['cs', offer.hex()], ['us', RESP.hex()]] + more + [['cc']]
+        return [['cs', plain.hex()], ['us', RESP.hex()], ['cs', offer.hex()], ['us', RESP.hex()]] + more + [['cc']]
     if role == 'web404':
         return [['cs', b'GET /nope HTTP/1.1\r\nHost: x\r\n\r\n'.hex()], ['cc']]
     if role == 'webroute':
@@ -1125,7 +1222,10 @@ def good_script(role, i):
 
 PLUGIN_ROLES = ['p:' + m for m in PLUGIN_MODES]
 EXACT_ROLES = ['x:%s*%d' % (b, n) for b in ('fwd', 'rev', 'tun', 'post', 'revpost') for n in (1, 2, 3)]
-ROLES = ['fwd', 'fwdka', 'post', 'tun', 'web404', 'webroute', 'rev', 'revka'] + PLUGIN_ROLES + EXACT_ROLES
+REALCONN_ROLES = ['rc:%s-%s' % (k, h) for k in ('fwd', 'tun', 'rev') for h in ('4', '6', 'host')]
+UPGRADE_ROLES = ['upg:%s-%s' % (w_, k) for w_ in ('first', 'follow') for k in ('ws', 'h2c')]
+ROLES = ['fwd', 'fwdka', 'post', 'tun', 'web404', 'webroute', 'rev', 'revka'] + PLUGIN_ROLES + EXACT_ROLES + \
+    REALCONN_ROLES + UPGRADE_ROLES
 CANARY_ROLES = ['fwd', 'post', 'tun', 'web404', 'webroute', 'rev', 'p:reject-after', 'p:no-connect'] + EXACT_ROLES
 
 
@@ -1146,7 +1246,7 @@ def _faults(spec):
     out = {}
     for k, v in (spec or {}).items():
         op, n = k.split(':')
-        e = 'stall' if v == 'stall' else _fault(v)
+        e = v      # the name; FaultySocket builds the exception when it raises
         if n.endswith('+'):
             out[(op, int(n[:-1]), '+')] = e
         else:
@@ -1221,6 +1321,10 @@ def drive(w, case, res, rounds_per_step=3, final_rounds=8):
             up.send(bytes(65 + (k % 23) for k in range(op[1])))      # op[1] bytes of origin output
         elif op[0] == 'pump':
             pass
+        elif op[0] == 'gone':
+            # by now the proxy must have torn this connection down on its own (client still open)
+            if c.client.near_fd in w.ex.works:
+                res['late'].append(c.idx)
         elif op[0] == 'cc':
             c.client.close()
         elif op[0] == 'cr':
@@ -1280,22 +1384,32 @@ def run_real(case, rounds_per_step=3, final_rounds=8):
     """Runs a multi-connection scenario on the real executor + real handlers.
     Returns a dict of implementation-level observations."""
     import gc
-    w = real_world(tcp=bool(case.get('tcp')))
-    res = {'dead': None, 'canary': {}, 'leaked': [], 'end': None, 'rounds': 0}
+    # "released promptly" must not depend on the cycle collector: it is off for the whole scenario and
+    # descriptors are counted without collecting first
+    gc_was_on = gc.isenabled()
+    gc.disable()
+    w = real_world(tcp=bool(case.get('tcp')), order=case.get('order'))
+    res = {'dead': None, 'canary': {}, 'leaked': [], 'end': None, 'rounds': 0, 'late': []}
     try:
+        if case.get('tcp'):
+            for fd in [x.fileno() for x in w.tcp_pair()]:      # the shared listener exists from here on
+                w.close_fd(fd)
+        fds0 = count_fds()
         drive(w, case, res, rounds_per_step, final_rounds)
         res['end'] = w.snapshot() if w.dead is None else None
         res['leaked'] = w.leaked()
-        if res['leaked']:
-            # a socket dropped inside a reference cycle is closed by the cycle collector, not at once
-            gc.collect()
-            res['leaked'] = w.leaked()
+        for fd in list(w.socks):
+            w.close_fd(fd)            # the harness's own ends
+        res['fd_growth'] = count_fds() - fds0 if w.dead is None else 0
         res['closes'] = close_report(w)
         res['blocked'] = list(w.blocked)
         res['slowest'] = w.slowest
+        res['hung'] = w.hung
         return res
     finally:
         w.close()
+        if gc_was_on:
+            gc.enable()
 
 
 def close_report(w):
@@ -1311,14 +1425,16 @@ def close_report(w):
 def run_repeat(case):
     """the same connection history `n` times on one executor; descriptor count before / after"""
     import gc
-    w = real_world(tcp=bool(case.get('tcp')))
-    res = {'dead': None, 'canary': {}, 'leaked': [], 'end': None, 'rounds': 0}
+    gc_was_on = gc.isenabled()
+    w = real_world(tcp=bool(case.get('tcp')), order=case.get('order'))
+    res = {'dead': None, 'canary': {}, 'leaked': [], 'end': None, 'rounds': 0, 'late': []}
     try:
         one = {'conns': [case['conn']], 'sched': [], 'final': case.get('final')}
         drive(w, one, res)        # warm-up: lazily created descriptors (loop, listener) exist from here on
         for fd in list(w.socks):
             w.close_fd(fd)
         gc.collect()
+        gc.disable()              # from here on nothing may depend on the cycle collector
         before = count_fds()
         for _ in range(case['n']):
             if res['dead'] is not None:
@@ -1327,7 +1443,6 @@ def run_repeat(case):
             for fd in list(w.socks):
                 w.close_fd(fd)
             w.upstreams = []
-        gc.collect()
         res['fds_before'] = before
         res['fds_after'] = count_fds()
         res['closes'] = close_report(w)
@@ -1336,6 +1451,8 @@ def run_repeat(case):
         return res
     finally:
         w.close()
+        if gc_was_on:
+            gc.enable()
 
 
 # ---------------------------------------------------------------------------
@@ -1391,6 +1508,21 @@ def mutate(rng, b):
         elif k == 5:
             b[pos:pos] = rng.choice([b'\r\n', b'\r\n\r\n', b'Content-Length: 3\r\n', b'Transfer-Encoding: chunked\r\n', b'Host: \xff\r\n'])
     return bytes(b)
+
+
+def prompt_variants(role, i):
+    """the origin closes / resets after its response while the client stays open: the proxy must tear the
+    connection down by itself, within a few loop iterations (no waiting for the client, no spinning)"""
+    good = good_script(role, i)
+    k = next((n for n, st in enumerate(good) if st[0] == 'us'), None)
+    if k is None:
+        return []
+    out = []
+    for ab in ('uc', 'ur'):
+        for upto in (k, k + 1):
+            out.append({'role': role, 'i': i, 'adv': 1, 'kind': 'prompt',
+                        'steps': [list(st) for st in good[:upto]] + [[ab], ['pump'], ['pump'], ['gone'], ['cc']]})
+    return out
 
 
 def backlog_variants(role, i):
@@ -1760,7 +1892,7 @@ def refine_real(case):
 
     w.round = round_
     w.reap = reap_
-    res = {'dead': None, 'canary': {}, 'leaked': [], 'end': None, 'rounds': 0}
+    res = {'dead': None, 'canary': {}, 'leaked': [], 'end': None, 'rounds': 0, 'late': []}
     try:
         known.update(fd_snapshot())
         drive(w, case, res)
